@@ -568,3 +568,88 @@ Proof.
     destruct (pg_serial pg =? _); [|cbn; unfold OUT_OF_FUEL; lia].
     destruct (_ >? pos); cbn; unfold OUT_OF_FUEL; lia.
 Qed.
+
+(* ---- where a sample seek lands, for any page table ---- *)
+Lemma shift_floor_gt pos h : 0 <= h -> pos - 2 ^ h < Z.shiftl (Z.shiftr pos h) h.
+Proof.
+  intros Hh. rewrite Z.shiftr_div_pow2, Z.shiftl_mul_pow2 by lia.
+  assert (0 < 2 ^ h) as Hp by (apply Z.pow_pos_nonneg; lia).
+  pose proof (Z.mod_pos_bound pos (2 ^ h) Hp). rewrite (Z.div_mod pos (2 ^ h)) at 1 by lia. lia.
+Qed.
+Lemma shiftr_small D h : 0 <= h -> Z.shiftr D h <= 0 -> D < 2 ^ h.
+Proof.
+  intros Hh H. rewrite Z.shiftr_div_pow2 in H by lia.
+  assert (0 < 2 ^ h) as Hp by (apply Z.pow_pos_nonneg; lia).
+  destruct (Z_lt_le_dec D (2 ^ h)) as [|Hge]; [assumption|].
+  assert (1 <= D / 2 ^ h); [|lia]. apply Z.div_le_lower_bound; lia.
+Qed.
+
+(* the sample-discarding loop of ov_pcm_seek never stops a whole (half-rate) sample short of the target,
+   for ANY page table and state *)
+Lemma seek_skip_lower : forall fuel s pos,
+  0 <= v_hs s -> pos <= pcm_total s -> (packets s + 2 <= fuel)%nat ->
+  pos - 2 ^ v_hs s < v_pcm (seek_skip fuel s pos).
+Proof.
+  induction fuel as [|f IH]; intros s pos Hh Htot Hf; [lia|].
+  destruct f as [|f]; [lia|]. remember (S f) as g.
+  cbn [seek_skip]. cbv zeta. set (h := v_hs s) in *.
+  destruct (v_pcm s <? Z.shiftl (Z.shiftr pos h) h) eqn:Elt.
+  2: { pose proof (shift_floor_gt pos h Hh). lia. }
+  set (target := Z.shiftr (pos - v_pcm s) h).
+  destruct (target <=? 0) eqn:Et.
+  { pose proof (shiftr_small (pos - v_pcm s) h Hh ltac:(unfold target in Et; lia)). lia. }
+  set (samples0 := if v_rs s =? INITSET then dec_pcmout (v_dec s) else 0).
+  set (samples := if samples0 >? target then target else samples0).
+  destruct (dec_read (v_dec s) samples) as [rcr d].
+  set (s1 := set_pcm (set_dec s d) (v_pcm s + Z.shiftl samples h)).
+  destruct (samples <? target) eqn:Ecmp.
+  - pose proof (fetch_packets (fetch_fuel s1) s1) as [P1 P2].
+    pose proof (fetch_fuel_enough s1) as Hfe.
+    pose proof (fetch_rc (fetch_fuel s1) s1) as Hrc.
+    pose proof (st_fetch (fetch_fuel s1) s1) as Hst.
+    pose proof (fetch_hs (fetch_fuel s1) s1) as Hhs.
+    destruct (fetch (fetch_fuel s1) s1) as [rc s2]. cbn [fst snd] in *.
+    assert (packets s1 = packets s) as Hps by reflexivity.
+    assert (pcm_total s2 = pcm_total s) as Ht2 by (rewrite (st_total s1 s2 Hst); reflexivity).
+    assert (v_hs s2 = h) as Hh2 by (rewrite Hhs; reflexivity).
+    destruct (rc <=? 0) eqn:Erc.
+    + subst g. rewrite seek_skip_exit.
+      * cbn [v_pcm set_pcm]. assert (0 < 2 ^ h) by (apply Z.pow_pos_nonneg; lia). lia.
+      * left. cbn [v_pcm v_hs set_pcm]. rewrite Hh2. pose proof (shift_floor pos h Hh). lia.
+    + destruct Hrc as [-> | [-> | ->]]; [|unfold OV_EOF_ in Erc; lia|unfold OUT_OF_FUEL in Erc; lia].
+      specialize (P2 eq_refl). rewrite <- Hh2. apply IH; [rewrite Hh2; exact Hh|lia|lia].
+  - assert (samples = target) as Hs.
+    { unfold samples in *. destruct (samples0 >? target) eqn:E; [reflexivity|]. lia. }
+    assert (v_pcm s < Z.shiftl (Z.shiftr pos h) h) by lia. pose proof (shift_floor pos h Hh).
+    assert (Z.shiftr (pos - v_pcm s1) (v_hs s1) <= 0) as Hex.
+    { unfold s1. cbn [v_pcm v_hs set_pcm set_dec]. fold h. rewrite Hs. unfold target.
+      replace (pos - (v_pcm s + Z.shiftl (Z.shiftr (pos - v_pcm s) h) h)) with ((pos - v_pcm s) - Z.shiftl (Z.shiftr (pos - v_pcm s) h) h) by lia.
+      apply shift_rest; [exact Hh|lia]. }
+    subst g. rewrite seek_skip_exit by (right; exact Hex).
+    pose proof (shiftr_small _ _ ltac:(exact Hh) Hex) as Hsm. change (v_hs s1) with h in Hsm. lia.
+Qed.
+
+(* ov_pcm_seek, any page table, any state, full or half rate: a seek that reports success never lands a
+   whole output sample (1 or 2 positions) before the target *)
+Theorem pcm_seek_not_short s pos :
+  0 <= v_hs s -> fst (pcm_seek s pos) = 0 -> pos - 2 ^ v_hs s < v_pcm (snd (pcm_seek s pos)).
+Proof.
+  intros Hh. unfold pcm_seek.
+  pose proof (st_pcm_seek_page s pos) as Hst. pose proof (hsp_pcm_seek_page s pos) as Hhs.
+  destruct (pcm_seek_page s pos) as [rc s1] eqn:Ep. cbn [snd] in Hst, Hhs.
+  destruct (rc <? 0) eqn:Erc; cbn [fst snd]; [intros ->; lia|]. intros _.
+  set (s2 := make_ready s1).
+  set (s3 := seek_discard (length (v_rem s2) + pkt_count (v_rem s2) + length (v_q s2) + 2) s2 pos 0).
+  assert (same_tables s s3) as Hst3.
+  { eapply st_trans; [exact Hst|]. eapply st_trans; [apply st_make_ready|]. apply st_seek_discard. }
+  assert (v_hs s3 = v_hs s) as Hhs3.
+  { pose proof (hsp_seek_discard (length (v_rem s2) + pkt_count (v_rem s2) + length (v_q s2) + 2) s2 pos 0) as A. fold s3 in A.
+    pose proof (hsp_make_ready s1) as B. fold s2 in B. unfold same_hs in *. congruence. }
+  assert (pos <= pcm_total s) as Htot.
+  { unfold pcm_seek_page in Ep. destruct (v_rs s <? OPENED); [inversion Ep; subst; unfold OV_EINVAL_ in *; lia|].
+    destruct ((pos <? 0) || (pos >? pcm_total s)) eqn:E; [inversion Ep; subst; unfold OV_EINVAL_ in *; lia|]. lia. }
+  rewrite <- Hhs3. apply seek_skip_lower.
+  - rewrite Hhs3. exact Hh.
+  - rewrite (st_total s s3 Hst3). exact Htot.
+  - unfold packets. lia.
+Qed.
